@@ -1149,6 +1149,14 @@ class System:
         name_parts = full_name.split('.', 1)
         for root_obj in self.rootobjects:
             if root_obj.name == name_parts[0]:
+                # The rest of the name is looked up BELOW the root: when the root binds
+                # nothing under its first component, expandName() would hand it back as a
+                # free name, and an unrelated root module of that name would be found.
+                first = name_parts[1].split('.', 1)[0]
+                if first not in root_obj.contents and not (
+                        isinstance(root_obj, CanContainImportsDocumentable)
+                        and first in root_obj._localNameToFullName_map):
+                    raise LookupError(full_name)
                 obj = self.objForFullName(root_obj.expandName(name_parts[1]))
                 if obj is not None:
                     return obj
